@@ -24,6 +24,57 @@ def model_check_small(c, w=8, maxn=14):
     return r
 
 
+def closed_form_equivalence(c):
+    """StreamCF (closed forms, the Apalache model) == Stream.tla (section by section) in every reachable state, scaled constants."""
+    import shutil
+    wd = c.workdir()
+    src = open(os.path.join(vlib.SPEC, "apalache", "StreamCF.tla")).read()
+    small = src.replace("MODULE StreamCF ", "MODULE StreamCFSmall ").replace("\nB == 64\n", "\nB == 4\n").replace("\nBUFSZ == 256\n", "\nBUFSZ == 8\n").replace("\nW32 == 4294967296\n", "\nW32 == 8\n")
+    if small.count("B == 4") != 1 or small.count("W32 == 8") != 1:
+        raise vlib.ToolError("could not derive StreamCFSmall from apalache/StreamCF.tla")
+    open(os.path.join(wd, "StreamCFSmall.tla"), "w").write(small)
+    shutil.copy(os.path.join(vlib.SPEC, "MCStreamCFEq.tla"), wd)
+    shutil.copy(os.path.join(vlib.SPEC, "MCStreamCFEq.cfg"), wd)
+    r = vlib.run_tlc(os.path.join(wd, "MCStreamCFEq"), cfg=os.path.join(wd, "MCStreamCFEq.cfg"), workers=8, timeout=3000, tag="cfeq")
+    vlib.tlc_must_succeed(r, "MCStreamCFEq")
+    if r["violated"]:
+        raise vlib.ToolError("closed-form model StreamCF differs from Stream.tla (spec bug):\n" + vlib.tail(r["out"]))
+    c.add_model(r, "MCStreamCFEq: closed-form model (Apalache's StreamCF) equals Stream.tla's ApplyImpl / Seek / PosImpl in every reachable state (BLOCK=4, W=8)")
+
+
+def apalache_inductive(c, full):
+    """Inductive-invariant check of the closed-form stream model at the REAL constants (2^32, 2^64, BLOCK 64), unbounded histories.
+    quick: Init => IndInv and the two Seek steps; thorough: also the two Apply steps (about 2 min)."""
+    import subprocess
+    import time
+    jobs = [("Init", ["--init=Init", "--inv=Inv", "--length=0"]), ("IetfSeek", ["--init=IndInitIetf", "--next=NextSeek", "--inv=Inv", "--length=1"]),
+            ("C64Seek", ["--init=IndInitC64", "--next=NextSeek", "--inv=Inv", "--length=1"])]
+    if full:
+        jobs += [("IetfApply", ["--init=IndInitIetf", "--next=NextApply", "--inv=Inv", "--length=1"]),
+                 ("C64Apply", ["--init=IndInitC64", "--next=NextApply", "--inv=Inv", "--length=1"])]
+    wd = c.workdir()
+    procs = []
+    t0 = time.time()
+    for name, args in jobs:
+        log = open(os.path.join(wd, "apalache-%s.log" % name), "w")
+        p = subprocess.Popen(["timeout", "2400", "apalache-mc", "check"] + args + ["--out-dir=" + os.path.join(wd, "apalache-out", name), "StreamCF.tla"],
+                             cwd=os.path.join(vlib.SPEC, "apalache"), stdout=log, stderr=subprocess.STDOUT)
+        procs.append((name, p, log))
+    res = {}
+    for name, p, log in procs:
+        p.wait()
+        log.close()
+        out = open(log.name).read()
+        ok = "EXITCODE: OK" in out and "The outcome is: NoError" in out
+        res[name] = "ok" if ok else "failed"
+        if not ok:
+            raise vlib.ToolError("Apalache obligation %s not discharged (rc=%s):\n%s" % (name, p.returncode, vlib.tail(out, 15)))
+    import shutil
+    shutil.rmtree(os.path.join(wd, "apalache-out"), ignore_errors=True)
+    c.cov["apalache_inductive_invariant"] = {"obligations": res, "wall_s": round(time.time() - t0, 1),
+                                             "meaning": "IndInv of apalache/StreamCF.tla is inductive at the real constants: exhaustion exact (fails iff pos+n > keystream length), try_current_pos formula = position, IETF nonce word intact - for unbounded histories and any request length < 2^64"}
+
+
 def model_graph_real(c, depth, tier):
     wd = c.workdir()
     cfg = os.path.join(wd, "MCStreamReal.cfg")
@@ -145,6 +196,9 @@ def run_stream(c, focus):
         model_check_small(c, w=16, maxn=10)
     else:
         model_check_small(c, w=8, maxn=14)
+    # (c') closed forms: same as Stream.tla at scaled constants (TLC), inductive at the real constants (Apalache)
+    closed_form_equivalence(c)
+    apalache_inductive(c, full=c.thorough)
     # (d) real constants: graph -> every edge replayed on the real code
     depth = 4 if c.thorough else 3
     g = model_graph_real(c, depth, ("c11t" if c.thorough else "c11") if focus == "C11" else ("thorough" if c.thorough else "quick"))
